@@ -5,13 +5,20 @@ import functools
 import json
 import textwrap
 
+from twisted.internet import task
 from twisted.internet.testing import StringTransport
 from twisted.words.protocols import irc
 
 HEADLINE = "TwistedProps.C43.lines_within_limit"
 RULE = ("messages assembled from ASCII words, long words, hyphenated words, runs of blanks/tabs/CR/LF/VT/FF, non-ASCII "
-        "whitespace, 2/3/4-octet code points, NUL and M-QUOTE (which low-level quoting doubles); targets ASCII and "
-        "non-ASCII; limits around len(fmt)+2 (refusal boundary), small, mid, 512 and None (computed default); "
+        "whitespace, 2/3/4-octet code points, NUL and M-QUOTE (which low-level quoting doubles), and texts of 400-1300 characters "
+        "(one unit repeated, or many words) that overflow the computed default; targets ASCII and non-ASCII and assembled from atoms so "
+        "that each of CR / LF / NUL / M-QUOTE occurs alone and in every combination; limits around len(fmt)+2 (refusal boundary), "
+        "small, mid, 512 and None (computed default); "
+        "histories (14% of cases): 1-4 calls of msg / notice / say on ONE client, the server announcing NICKLEN 5/9/16/30/64 before or "
+        "between the calls (real RPL_ISUPPORT line), lineRate None or set (task.Clock as reactor) with 0-5 timer firings after each "
+        "call and a final drain, 30% of the texts beyond the default limit, 30-70% of the limits None; "
+        "received octets (recv / e2e) delivered whole, octet by octet, cut between CR and LF, or at 1-4 random offsets; "
         "plus direct split(), quote/dequote texts over the quoting alphabets, UTF-8 and isspace sweeps; "
         "CTCP framing (31% of cases): lists of (tag, data) with data None / '' / str / list of str, the data texts beginning with, "
         "ending in, or made only of every kind of whitespace (space, double space, tab, CR/LF/VT/FF, U+001C-1F, NBSP and every other "
@@ -20,6 +27,7 @@ RULE = ("messages assembled from ASCII words, long words, hyphenated words, runs
         "(mixed), arbitrary texts into ctcpExtract (extract), a line delivered to a real receiving client (recv), and "
         "ctcpMakeQuery/ctcpMakeReply on one client delivered to another (e2e, incl. texts msg() rewrites or splits); "
         "distinct = (op, kind, character classes present, limit class, #lines class, raised?) resp. "
+        "(hist, queue?, kinds, NICKLEN class, limit kinds, long?, quoted characters in targets, firings?, per-call outcome, classes) resp. "
         "(op, #messages, data kinds, leading/trailing/only-whitespace class, escapes present, character classes, tag validity, calls)")
 ASSUMES = [
     "CTCP framing: a tag is a non-empty str without U+0020 (the one separator); data that is None, '' or [] is the message "
@@ -37,7 +45,16 @@ ASSUMES = [
     "characters; only whitespace differs) — the client → client theorems for any wrap meeting WrapWhole; on every run the answers the real textwrap.wrap gave to the calls the real code made "
     "are checked against that contract (driver) and fed to the model as the parameter",
     "message, target and command are str made of Unicode scalar values (a lone surrogate makes str.encode raise)",
-    "IRCClient.lineRate is None (default): sendLine writes immediately, one transport.write per line",
+    "IRCClient.lineRate is None (sendLine writes immediately) or a positive number with twisted.internet.task.Clock standing in for "
+    "the reactor (irc.reactor is replaced for the duration of the run): the queue, the timer and its firings are modelled "
+    "(History.lean: Conn.sendLine / tick / fire) and history_written is proved for every schedule; one transport.write per line. "
+    "lineRate = 0 (callLater(0): one advance drains everything) and lineRate changed while lines are queued are not generated",
+    "lines are attributed to the calls of a history by counting each call's sendLine invocations (an instance-level wrapper "
+    "that delegates to the real method); the default limit of a call is the documented one for the NICKLEN the server announced "
+    "last (ServerSupportedFeatures parses the real 005 line)",
+    "say(channel, ...) with a non-empty channel (channel[0] of '' raises IndexError before anything is sent)",
+    "segmentation of the received octets is LineReceiver's business: the model receives whole lines; the tie and the oracle "
+    "demand the same calls on the peer for every segmentation generated",
     "'whitespace' is str.isspace (tied to the model's isSpace over all code points on every run)",
     "the model's UTF-8 encoder/decoder (proved inverse) are CPython's codec: tied on every run over boundary and random scalar values",
 ]
@@ -48,7 +65,10 @@ MANIFEST = {
             "and the quoting functions: for every message, target, limit and every textwrap meeting its contract, each written "
             "line is within the limit in octets (terminator included), contains no CR/LF before the terminator, and the message "
             "parts concatenate to the message's non-whitespace characters; lowDequote∘lowQuote = id and ctcpDequote∘ctcpQuote = id "
-            "for all texts. Model tied to irc.py by differential runs of the real client on a recording transport.",
+            "for all texts; for every history of msg/notice/say calls on one client, every NICKLEN in force, lineRate set or not "
+            "and every timer schedule, the drained transport carries exactly each call's lines in order (history_written) and each "
+            "call's lines meet the three clauses (history_lines_within_limit, history_content_preserved). "
+            "Model tied to irc.py by differential runs of the real client on a recording transport.",
     "note": "trusts Lean kernel, the hand-written model (differentially tied on every run), textwrap.wrap's contract "
             "(checked on every observed call), CPython's UTF-8 codec",
     "technique": "Lean 4 proof (per-character form of the sequential replaces, induction over chunks; str.split(X_DELIM) of "
@@ -119,11 +139,23 @@ class _Peer(irc.IRCClient):
         self.events.append("N:" + enc(message))
 
 
-def _deliver(data):
-    """feed octets (complete lines) to a fresh receiving client through the real dataReceived"""
+def _segments(data, cuts):
+    """the octets cut at `cuts`: None = one segment, "all" = octet by octet, else offsets (negative: from the end)"""
+    if not cuts:
+        return [data]
+    if cuts == "all":
+        return [data[i:i + 1] for i in range(len(data))]
+    n = len(data)
+    pts = sorted({k if k >= 0 else n + k for k in cuts} & set(range(1, n)))
+    return [data[a:b] for a, b in zip([0] + pts, pts + [n])]
+
+
+def _deliver(data, cuts=None):
+    """feed octets (complete lines) to a fresh receiving client through the real dataReceived, in the given segments"""
     peer = _Peer()
     peer.makeConnection(StringTransport())
-    peer.dataReceived(data)
+    for seg in _segments(data, cuts):
+        peer.dataReceived(seg)
     return "+".join(peer.events) if peer.events else "~"
 
 
@@ -173,6 +205,59 @@ def _show_lines(ws):
     return ";".join(w.hex() or "-" for w in ws) if ws else "~"
 
 
+def _run_hist(c):
+    """ONE client, the calls of c["steps"] in order; NICKLEN announced by the server (a real RPL_ISUPPORT line) whenever the
+    step's value differs from the one in force; with c["rate"] the client's lineRate is set and the reactor is a task.Clock
+    advanced `fires` times after each call and until no call is pending at the end.  Lines are attributed to calls by counting
+    the sendLine calls each step makes."""
+    rate = c.get("rate")
+    clock = task.Clock()
+    old_reactor = irc.reactor
+    irc.reactor = clock
+    try:
+        client = irc.IRCClient()
+        tr = _Transport()
+        client.makeConnection(tr)
+        tr.writes.clear()
+        if rate is not None:
+            client.lineRate = rate
+        counts = []
+        orig = client.sendLine
+
+        def spy(line):
+            counts[-1] += 1
+            return orig(line)
+        client.sendLine = spy
+        nicklen, results = 9, []
+        for st in c["steps"]:
+            if st.get("nicklen", 9) != nicklen:
+                nicklen = st.get("nicklen", 9)
+                client.dataReceived(b":irc.example.org 005 irc NICKLEN=%d :are supported by this server\r\n" % nicklen)
+            counts.append(0)
+            call = {"msg": client.msg, "notice": client.notice, "say": client.say}[st["kind"]]
+            try:
+                call(st["user"], st["message"], st["length"])
+                results.append(None)
+            except ValueError:
+                results.append("!raised ValueError" if not counts[-1] else "!raised ValueError after %d lines" % counts[-1])
+            if rate is not None:
+                for _ in range(st.get("fires", 0)):
+                    clock.advance(rate)
+        for _ in range(100000):
+            if not clock.getDelayedCalls():
+                break
+            clock.advance(rate)
+    finally:
+        irc.reactor = old_reactor
+    if len(tr.writes) != sum(counts):
+        return "!written %d lines for %d sendLine calls: %s" % (len(tr.writes), sum(counts), _show_lines(tr.writes))
+    groups, at = [], 0
+    for r, k in zip(results, counts):
+        groups.append(r if r is not None and k == 0 else _show_lines(tr.writes[at:at + k]) if r is None else r)
+        at += k
+    return "/".join(groups)
+
+
 @functools.lru_cache(maxsize=4096)
 def _trace_key(key):
     c = json.loads(key)
@@ -181,6 +266,8 @@ def _trace_key(key):
             if c["op"] == "split":
                 out = irc.split(c["text"], c["length"])
                 out = ";".join(enc(x) for x in out) if out else "~"
+            elif c["op"] == "hist":
+                out = _run_hist(c)
             elif c["op"] == "e2e":
                 client = irc.IRCClient()
                 tr = _Transport()
@@ -189,7 +276,8 @@ def _trace_key(key):
                 make = client.ctcpMakeQuery if c["kind"] == "q" else client.ctcpMakeReply
                 try:
                     make(c["user"], _msgs(c))
-                    out = _show_lines(tr.writes) + "|" + _deliver(b"".join(b":alice!a@example.org " + w for w in tr.writes))
+                    out = _show_lines(tr.writes) + "|" + _deliver(b"".join(b":alice!a@example.org " + w for w in tr.writes),
+                                                                  c.get("cuts"))
                 except ValueError:
                     out = "!raised ValueError" if not tr.writes else "!raised ValueError after " + _show_lines(tr.writes)
             else:
@@ -232,6 +320,12 @@ def model_line(c):
         return f"recv {c['kind']} {enc(c['t'])}"
     if op == "e2e":
         return f"e2e {c['kind']} {enc(c['user'])} {enc_msgs(_msgs(c))} 9 {_trace(c)[1]}"
+    if op == "hist":
+        steps = ";".join("/".join([st["kind"], enc(st["user"]), enc(st["message"]),
+                                   "none" if st["length"] is None else str(st["length"]),
+                                   str(st.get("nicklen", 9)), str(st.get("fires", 0) if c.get("rate") is not None else 0)])
+                         for st in c["steps"])
+        return f"hist {0 if c.get('rate') is None else 1} {steps} {_trace(c)[1]}"
     mt = "PRIVMSG" if c["kind"] == "msg" else "NOTICE"
     ln = "none" if c["length"] is None else str(c["length"])
     return f"send {enc(mt)} {enc(c['user'])} {enc(c['message'])} {ln} 9 {_trace(c)[1]}"
@@ -265,7 +359,7 @@ def run_impl(c):
     if op == "recv":
         cmd = "PRIVMSG" if c["kind"] == "p" else "NOTICE"
         line = f":alice!a@example.org {cmd} bob :" + _ref_low_quote(c["t"])
-        return _deliver(line.encode("utf-8") + b"\r\n")
+        return _deliver(line.encode("utf-8") + b"\r\n", c.get("cuts"))
     if op == "octets":
         if not hasattr(irc, "_splitOctets"):
             return "absent"
@@ -345,19 +439,46 @@ def oracle(c, out):
         return _oracle_recv(c, out)
     if op == "e2e":
         return _oracle_e2e(c, out)
+    if op == "hist":
+        return _oracle_hist(c, out)
     if op != "send":
         return None
     return _send_check(c, out, [])
 
 
+def _say_target(channel):
+    """say(): `#` is put in front of a channel name that has no prefix (documented)"""
+    return channel if channel[0] in "&#!+" else "#" + channel
+
+
+def _oracle_hist(c, out):
+    """each message of the history is judged by the statement on its own lines: what was sent before on the same client,
+    the NICKLEN in force, lineRate and the timer schedule do not enter the statement"""
+    if out.startswith("!written"):
+        return {"key": "hist-lines-lost-or-extra", "detail": f"{c!r}: {out[:300]}"}
+    groups = out.split("/")
+    if len(groups) != len(c["steps"]):
+        return {"key": "hist-garbled", "detail": f"{c!r}: {out[:300]}"}
+    for i, (st, g) in enumerate(zip(c["steps"], groups)):
+        bad = _send_check(st, g, [])
+        if bad is not None:
+            first = i == 0 and st.get("nicklen", 9) == 9 and c.get("rate") is None and st["kind"] != "say"
+            return {"key": ("" if first else "hist-") + bad["key"],
+                    "detail": f"call {i + 1} of {len(c['steps'])} on one client (lineRate {c.get('rate')!r}): " + bad["detail"]}
+    return None
+
+
 def _send_check(c, out, parts):
     """the clauses about written lines; `parts` receives the message parts read back from the lines"""
-    mt = "PRIVMSG" if c["kind"] == "msg" else "NOTICE"
-    fmt = f"{mt} {c['user']} :"
+    mt = "NOTICE" if c["kind"] == "notice" else "PRIVMSG"
+    user = _say_target(c["user"]) if c["kind"] == "say" else c["user"]
+    fmt = f"{mt} {user} :"
     limit = c["length"]
     if limit is None:
-        limit = 512 - len(":" + "a" * 9 + "!" + "b" * 10 + "@" + "c" * 63 + " " + fmt) - 10
-    what = f"{c['kind']}({c['user']!r}, {c['message']!r}, length={c['length']!r})"
+        # the documented default: room for `:nick!user@host ` with a nick of the server's NICKLEN, 10 and 63 characters
+        limit = 512 - len(":" + "a" * c.get("nicklen", 9) + "!" + "b" * 10 + "@" + "c" * 63 + " " + fmt) - 10
+    what = f"{c['kind']}({c['user']!r}, {c['message']!r}, length={c['length']!r})" + (
+        f" [NICKLEN {c['nicklen']}]" if c.get("nicklen", 9) != 9 else "")
     overhead = _wire_len(fmt) + 2
     if out.startswith("!raised ValueError"):
         if out != "!raised ValueError":
@@ -547,7 +668,11 @@ WORDS = ["a", "be", "the", "hello", "world,", "goof-ball", "--", "-b", "x" * 13,
          "\U0001F600", "a\U0001F600b", "é" * 9, "€" * 7, "\U0001F600" * 5, "nul\x00nul", "\x10", "\x10\x10n", "\x00" * 6,
          "q\x10r", "!", "e.g.", "well-known-fact", "\x01ACTION\x01", "\\", "0", "n", "r"]
 BLANKS = [" ", " ", " ", "  ", "\t", "\n", "\n", "\r", "\r\n", "\x0b", "\x0c", "\x1c", "\x85", "\xa0", " ", "　", " \n ", "\n\n"]
-USERS = ["foo", "#chan", "nick", "&local", "#ünï", "#日本", "a", "n\x10k", "n\rk\n"]
+USERS = ["foo", "#chan", "nick", "&local", "#ünï", "#日本", "a", "n\x10k", "n\rk\n", "n\rk", "\r", "n\nk", "n\x00k"]
+# targets are also assembled from these: each character low-level quoting rewrites occurs alone and in every combination
+USER_ATOMS = ["n", "k", "#c", "ü", "日", "\r", "\n", "\x00", "\x10", "&", "x", "!", "+"]
+LONG_UNITS = ["o", "é", "€", "\U0001F600", "\x00", "ab\x10", "wörld ", "日本語 ", "hello world, ", "\x10n ", "a\U0001F600"]
+NICKLENS = [9, 16, 30, 5, 64]
 QALPHA_LOW = ["\x10", "\x00", "\n", "\r", "0", "n", "r", "a", "\\", "\x01", "é", "\U0001F600", " "]
 QALPHA_CTCP = ["\\", "\x01", "a", "\\", "\x10", "n", "é", " ", "\U0001F600", "\n"]
 
@@ -614,15 +739,15 @@ def _ctcp_case(rng):
     if r < 0.72:
         ms = _ctcp_msgs(rng, atleast=1)
         if rng.random() < 0.8 and _valid_tags(_msgs({"msgs": ms})):
-            return {"op": "recv", "kind": rng.choice("pn"), "t": _ref_stringify(_msgs({"msgs": ms})), "msgs": ms}
+            return {"op": "recv", "kind": rng.choice("pn"), "t": _ref_stringify(_msgs({"msgs": ms})), "msgs": ms, "cuts": _cuts(rng)}
         alpha = ["\x01", "\x01", " ", "\\", "a", "ACTION", "x", "\t", "\xa0", "\x10", "\x00", "\n", "\r", " :", "é"]
         t = "".join(rng.choice(alpha) for _ in range(rng.randint(1, 10)))
-        return {"op": "recv", "kind": rng.choice("pn"), "t": t}
+        return {"op": "recv", "kind": rng.choice("pn"), "t": t, "cuts": _cuts(rng)}
     safe = rng.random() < 0.75
     ms = _ctcp_msgs(rng, safe)
     if rng.random() < 0.04:
         ms.append(["ACTION", "long " * rng.choice([60, 100]) + "tail"])
-    return {"op": "e2e", "kind": rng.choice("qqr"), "user": rng.choice(E2E_USERS), "msgs": ms}
+    return {"op": "e2e", "kind": rng.choice("qqr"), "user": rng.choice(E2E_USERS), "msgs": ms, "cuts": _cuts(rng)}
 
 
 def _message(rng):
@@ -641,8 +766,54 @@ def _message(rng):
     return "".join(parts)
 
 
+def _user(rng):
+    if rng.random() < 0.8:
+        return rng.choice(USERS[:4] * 3 + USERS)
+    return "".join(rng.choice(USER_ATOMS) for _ in range(rng.randint(1, 4)))
+
+
+def _long_message(rng):
+    """texts longer than the default limit (about 400 octets): one unit repeated (fills every line to the brim) or many words"""
+    if rng.random() < 0.6:
+        u = rng.choice(LONG_UNITS)
+        return u * (rng.randint(380, 1300) // len(u) + 1)
+    return " ".join(rng.choice(WORDS) * rng.randint(1, 4) for _ in range(rng.randint(60, 200)))
+
+
+def _cuts(rng):
+    """how the octets reach the receiving client: whole, octet by octet, cut between CR and LF, cut anywhere"""
+    r = rng.random()
+    if r < 0.35:
+        return None
+    if r < 0.45:
+        return "all"
+    if r < 0.65:
+        return [-1]
+    return sorted({rng.choice([-1, -2, -3, rng.randint(1, 30), rng.randint(20, 120)]) for _ in range(rng.randint(1, 4))})
+
+
+def _hist_case(rng):
+    """several calls on ONE client: msg / notice / say, NICKLEN as announced by the server (changing in between),
+    lineRate set or not, the timer firing between the calls"""
+    nick = rng.choice([9, 9, 9] + NICKLENS)
+    steps = []
+    for _ in range(rng.choice([1, 2, 2, 3, 4])):
+        if rng.random() < 0.25:
+            nick = rng.choice(NICKLENS)
+        kind = rng.choice(["msg", "notice", "say", "say"])
+        user = _user(rng)
+        long = rng.random() < 0.3
+        message = _long_message(rng) if long else _message(rng)
+        length = None if rng.random() < (0.7 if long else 0.3) else _length(rng, user, kind)
+        steps.append({"kind": kind, "user": user, "message": message, "length": length, "nicklen": nick,
+                      "fires": rng.choice([0, 0, 0, 1, 2, 5])})
+    return {"op": "hist", "rate": rng.choice([None, None, 1, 0.5, 2]), "steps": steps}
+
+
 def _length(rng, user, kind):
-    mt = "PRIVMSG" if kind == "msg" else "NOTICE"
+    mt = "NOTICE" if kind == "notice" else "PRIVMSG"
+    if kind == "say":
+        user = _say_target(user)
     base = len(f"{mt} {user} :") + 2
     r = rng.random()
     if r < 0.08:
@@ -680,6 +851,27 @@ def corpus():
         {"op": "send", "kind": "notice", "user": "n\rk\n", "message": "x y", "length": 40},
         {"op": "send", "kind": "msg", "user": "&local", "message": "\t\x10", "length": 21},
         {"op": "send", "kind": "msg", "user": "foo", "message": "ab \U0001F600", "length": 18},
+        # white-box mutation audit: a target whose only quoted character is CR; texts beyond the default limit;
+        # one client used twice / after the server announced NICKLEN / through say() / with lineRate; segmented delivery
+        {"op": "send", "kind": "msg", "user": "n\rk", "message": "hello", "length": None},
+        {"op": "send", "kind": "notice", "user": "a\nb", "message": "x y", "length": None},
+        {"op": "send", "kind": "msg", "user": "foo", "message": "é" * 900, "length": None},
+        {"op": "hist", "rate": 1, "steps": [
+            {"kind": "msg", "user": "foo", "message": "one two three", "length": 20, "nicklen": 9, "fires": 0}]},
+        {"op": "hist", "rate": 0.5, "steps": [
+            {"kind": "msg", "user": "foo", "message": "one two", "length": 20, "nicklen": 9, "fires": 1},
+            {"kind": "notice", "user": "bar", "message": "three four five", "length": 20, "nicklen": 9, "fires": 0}]},
+        {"op": "hist", "rate": None, "steps": [
+            {"kind": "msg", "user": "a", "message": "x", "length": None, "nicklen": 9, "fires": 0},
+            {"kind": "msg", "user": "#" + "c" * 40, "message": "o" * 900, "length": None, "nicklen": 9, "fires": 0}]},
+        {"op": "hist", "rate": None, "steps": [
+            {"kind": "msg", "user": "foo", "message": "o" * 900, "length": None, "nicklen": 30, "fires": 0}]},
+        {"op": "hist", "rate": None, "steps": [
+            {"kind": "say", "user": "chan", "message": "hello world again", "length": 25, "nicklen": 9, "fires": 0},
+            {"kind": "say", "user": "&chan", "message": "hello world again", "length": 25, "nicklen": 9, "fires": 0}]},
+        {"op": "e2e", "kind": "q", "user": "bob", "msgs": [["ACTION", "waves"]], "cuts": [-1]},
+        {"op": "e2e", "kind": "r", "user": "#ünï", "msgs": [["ACTION", "é\x00\x10 日本"]], "cuts": "all"},
+        {"op": "recv", "kind": "p", "t": "\x01ACTION waves\x01", "msgs": [["ACTION", "waves"]], "cuts": [-1]},
         {"op": "octets", "text": "", "maximum": 0},
         {"op": "octets", "text": "a", "maximum": 0},
         {"op": "octets", "text": "aé€\U0001F600\x00b", "maximum": 4},
@@ -708,10 +900,17 @@ def generate(rng, tier):
         if rng.random() < 0.31:
             yield _ctcp_case(rng)
             continue
+        if rng.random() < 0.2:
+            yield _hist_case(rng)
+            continue
         r = rng.random()
         if r < 0.62:
             kind = rng.choice(["msg", "notice"])
-            user = rng.choice(USERS[:4] * 3 + USERS)
+            user = _user(rng)
+            if rng.random() < 0.05:
+                yield {"op": "send", "kind": kind, "user": user, "message": _long_message(rng),
+                       "length": rng.choice([None, None, 512, 256, _length(rng, user, kind)])}
+                continue
             yield {"op": "send", "kind": kind, "user": user, "message": _message(rng), "length": _length(rng, user, kind)}
         elif r < 0.66:
             yield {"op": "octets", "text": _message(rng), "maximum": rng.choice([0, 1, 2, 3, 4, 4, 5, 6, 7, 9, 16, 40])}
@@ -780,6 +979,42 @@ def shrink(c):
                     yield dict(c, normals=c["normals"][:i] + [""] + c["normals"][i + 1:])
         if c.get("user", "bob") != "bob":
             yield dict(c, user="bob")
+        if c.get("cuts"):
+            yield dict(c, cuts=None)
+            if c["cuts"] == "all":
+                yield dict(c, cuts=[-1])
+            elif len(c["cuts"]) > 1:
+                for i in range(len(c["cuts"])):
+                    yield dict(c, cuts=c["cuts"][:i] + c["cuts"][i + 1:])
+        return
+    if c["op"] == "recv" and c.get("cuts"):
+        yield dict(c, cuts=None)
+    if c["op"] == "hist":
+        steps = c["steps"]
+        for i in range(len(steps)):
+            if len(steps) > 1:
+                yield dict(c, steps=steps[:i] + steps[i + 1:])
+        if c.get("rate") is not None:
+            yield dict(c, rate=None)
+        for i, st in enumerate(steps):
+            m = st["message"]
+            cands = []
+            if len(m) > 3:
+                cands += [dict(st, message=m[:len(m) // 2]), dict(st, message=m[len(m) // 2:]), dict(st, message=m[:-1])]
+            if len(m) <= 40:
+                cands += [dict(st, message=m[:j] + m[j + 1:]) for j in range(len(m))]
+            if st.get("fires"):
+                cands.append(dict(st, fires=0))
+            if st.get("nicklen", 9) != 9:
+                cands.append(dict(st, nicklen=9))
+            if st["kind"] != "msg":
+                cands.append(dict(st, kind="msg"))
+            if st["user"] not in ("foo", "a"):
+                cands += [dict(st, user="foo"), dict(st, user="a")]
+            if len(st["user"]) > 1:
+                cands += [dict(st, user=st["user"][:j] + st["user"][j + 1:]) for j in range(len(st["user"]))]
+            for st2 in cands:
+                yield dict(c, steps=steps[:i] + [st2] + steps[i + 1:])
         return
     if c["op"] == "send":
         m = c["message"]
@@ -826,6 +1061,19 @@ def _classes(s):
 
 def tag(c, out):
     op = c["op"]
+    if op == "hist":
+        sts = c["steps"]
+        kinds = "".join(sorted({st["kind"][0] for st in sts}))
+        nicks = sorted({st.get("nicklen", 9) for st in sts})
+        nc = "9" if nicks == [9] else "n" if len(nicks) == 1 else "v"
+        lens = "".join(sorted({"N" if st["length"] is None else "g" for st in sts}))
+        lng = "L" if any(len(st["message"]) > 380 for st in sts) else "s"
+        uq = "".join(sorted({ch for st in sts for ch in st["user"] if ch in "\r\n\x00\x10"})).encode().hex() or "-"
+        fires = "f" if c.get("rate") is not None and any(st.get("fires") for st in sts) else "-"
+        groups = out.split("/") if not out.startswith("!written") else []
+        res = "".join("r" if g.startswith("!") else "0" if g == "~" else "1" if ";" not in g else "m" for g in groups) or "!"
+        return (f"hist:{'q' if c.get('rate') is not None else 'd'}:{kinds}:{nc}:{lens}:{lng}:{uq}:{fires}:{res}:"
+                + _classes("".join(st["message"] for st in sts)))
     if op == "send":
         mt = "PRIVMSG" if c["kind"] == "msg" else "NOTICE"
         base = len(f"{mt} {c['user']} :") + 2
@@ -855,6 +1103,9 @@ def tag(c, out):
             extra += ":" + out.split("|")[-1][:1]
         elif op == "recv":
             extra = ":" + c["kind"]
+        if op in ("e2e", "recv"):
+            cu = c.get("cuts")
+            extra += ":" + ("w" if not cu else "b" if cu == "all" else "t" if cu == [-1] else "c")
         return f"{op}:{min(len(ms), 3)}:{kinds}:{_lead(ms)}:{esc}:{_classes(alltext)}:{'v' if _valid_tags(ms) else 'i'}{extra}"
     if op == "recv":
         return f"recv:{c['kind']}:{_classes(c['t'])}:{min(c['t'].count(chr(1)), 4)}:{out[:1]}"
